@@ -3,19 +3,12 @@
   tables (kept out of CRProps/C03.lean so that lake builds them in parallel and caches them).
 -/
 import CRModel.XsdModel
+import CRModel.CRXmlWOk
 import Gen.XsdScenario
 import Gen.PyEnums
 
 namespace CR.C03
 open CR.Xsd
-
-abbrev schema : Schema := CR.Xsd.Gen.schema
-
-/-- the schema's simple type `type` accepts the text `v` -/
-def acceptsV (type : String) (v : String) : Bool :=
-  match simpleOf schema type with
-  | some st => st.accepts v.toList
-  | none => false
 
 /-- traffic-sign members whose value the 2020a XSD does not list (besides every `UNKNOWN`, whose value is "") -/
 def signNotExpressible : List (String × String) :=
